@@ -295,6 +295,13 @@ class Interp:
             ok, v = self.on_call(e, env)
             if ok:
                 return v
+        # recognised calls nested inside a larger expression: evaluate them once, left to right,
+        # and let mini_eval find their value by text (scoped to this evaluation only)
+        nested = [c for c in ast.walk(e) if isinstance(c, ast.Call) and c is not e and self._handled_call(c)]
+        if nested:
+            env = dict(env)
+            for c in sorted(nested, key=lambda c: (c.lineno, c.col_offset)):
+                env[txt(c)] = self.on_call(c, env)[1]
         return mini_eval(e, env)
 
     def run(self, body: list[ast.stmt], env: dict[str, object]) -> tuple[str, object]:
@@ -462,3 +469,83 @@ class CIDict(dict):
 
     def get(self, k, default=None):  # type: ignore[override]
         return self._lower.get(str(k).lower(), default)
+
+
+# =============================================================================================
+# single-definition local expansion (alias resolution for guard evaluation / interpretation)
+
+
+def single_defs(fi: FunctionInfo, *, alias_only: bool) -> dict[str, ast.expr]:
+    """local name -> its defining expression, for locals assigned exactly once by a plain
+    `name = expr` (not parameters, loop/with/except targets, augmented or tuple assignments).
+    alias_only: keep only definitions that are pure Name/Attribute chains (no calls, no effects)."""
+    params = {a.arg for a in [*fi.node.args.posonlyargs, *fi.node.args.args, *fi.node.args.kwonlyargs]}
+    if fi.node.args.vararg:
+        params.add(fi.node.args.vararg.arg)
+    if fi.node.args.kwarg:
+        params.add(fi.node.args.kwarg.arg)
+    stores: dict[str, int] = {}
+    defs: dict[str, ast.expr] = {}
+    for n in walk_scope(fi.node):
+        if isinstance(n, ast.Name) and isinstance(n.ctx, (ast.Store, ast.Del)):
+            stores[n.id] = stores.get(n.id, 0) + 1
+        if isinstance(n, ast.Assign) and len(n.targets) == 1 and isinstance(n.targets[0], ast.Name):
+            defs[n.targets[0].id] = n.value
+        elif isinstance(n, ast.AnnAssign) and n.value is not None and isinstance(n.target, ast.Name):
+            defs[n.target.id] = n.value
+    out = {}
+    for nm, e in defs.items():
+        if nm in params or stores.get(nm, 0) != 1:
+            continue
+        if alias_only and not _is_alias_expr(e):
+            continue
+        out[nm] = e
+    return out
+
+
+def _is_alias_expr(e: ast.expr) -> bool:
+    while isinstance(e, ast.Attribute):
+        e = e.value
+    return isinstance(e, ast.Name)
+
+
+class _Subst(ast.NodeTransformer):
+    def __init__(self, defs: dict[str, ast.expr], depth: int = 0) -> None:
+        self.defs = defs
+        self.depth = depth
+
+    def visit_Name(self, node: ast.Name):  # noqa: N802
+        if isinstance(node.ctx, ast.Load) and node.id in self.defs and self.depth < 5:
+            import copy
+
+            rep = copy.deepcopy(self.defs[node.id])
+            return _Subst({k: v for k, v in self.defs.items() if k != node.id}, self.depth + 1).visit(rep)
+        return node
+
+    def visit_Attribute(self, node: ast.Attribute):  # noqa: N802
+        # `obj.attr` where obj is a local object built by a call: keep the local as the base (its
+        # identity is the object); only pure aliases (`v = self._view`) are seen through.
+        if isinstance(node.value, ast.Name) and node.value.id in self.defs and not _is_alias_expr(self.defs[node.value.id]):
+            return node
+        return self.generic_visit(node)
+
+    def visit_Lambda(self, node: ast.Lambda):  # noqa: N802
+        return node
+
+    def visit_FunctionDef(self, node):  # noqa: N802
+        return node
+
+
+def expand(fi: FunctionInfo, node: ast.AST, *, alias_only: bool = False) -> ast.AST:
+    """Copy of `node` with single-definition locals replaced by their defining expressions."""
+    import copy
+
+    defs = single_defs(fi, alias_only=alias_only)
+    if not defs:
+        return node
+    return ast.fix_missing_locations(_Subst(defs).visit(copy.deepcopy(node)))
+
+
+def expand_body(fi: FunctionInfo, body: list[ast.stmt]) -> list[ast.stmt]:
+    """Alias-expanded copy of a statement list (for the interpreter)."""
+    return [expand(fi, st, alias_only=True) for st in body]  # type: ignore[misc]
